@@ -651,7 +651,7 @@ func c06ClassGraph(p *Prog, r *Report) {
 		lr := p.LockFlow(fi, entryHeldFor(p, fi))
 		results[fi.Key] = lr
 		for _, ev := range lr.Events {
-			if ev.Kind == "acquire" && ev.Ctx != "go" {
+			if ev.Kind == "acquire" && ev.Ctx != "go" && !ev.Op.Try {
 				if direct[fi.Key] == nil {
 					direct[fi.Key] = map[string]bool{}
 				}
@@ -698,6 +698,11 @@ func c06ClassGraph(p *Prog, r *Report) {
 			switch ev.Kind {
 			case "acquire":
 				nAcq++
+				if ev.Op.Try {
+					// a try-lock never waits: it cannot be the blocked step of a deadlock cycle (the lock it
+					// obtains still counts as held for everything acquired afterwards)
+					continue
+				}
 				for _, h := range ev.Held {
 					if h.Path == ev.Op.Path {
 						continue
